@@ -1,6 +1,7 @@
 package main
 
 import (
+	"regexp"
 	"go/token"
 	"go/types"
 	"strings"
@@ -147,6 +148,10 @@ func runC12(p *Program, r *Result) {
 					if all {
 						ok = true
 					}
+				}
+				// a buffer of constant size made for the object itself is as bounded as an array field
+				if !ok && constMakeRe.MatchString(t) {
+					ok = true
 				}
 				r.Check(ok, fs.Fn.String(), "store:"+spec.typ+"."+sl, r.pos(fs.Store), "reslice of the fixed array / of itself", "slice field "+sl+" is set to "+t+": not a view of the fixed-size buffer (unbounded growth or aliasing of caller memory)")
 			}
@@ -509,3 +514,6 @@ func cfgReachesInstr(p *Program, from, to ssa.Instruction) bool {
 	})
 	return hit
 }
+
+// constMakeRe: make([]byte, K) / make([]byte, 0, K) with constant K, as printed by the term builder.
+var constMakeRe = regexp.MustCompile(`^Make0?\([0-9]+\)$`)
